@@ -264,10 +264,14 @@ class Printer:
             else:
                 mid = self.sp() + sym + self.sp()
             if inner and self.st.nl_in_parens and self.rng.random() < self.st.nl_in_parens:
-                mid = mid.rstrip(" ") + ("\r\n" if self.st.crlf else "\n") + " "
+                # (binary minus keeps its blanks: " -" followed by a newline would be a unary minus)
+                mid = (mid if op == "sub" else mid.rstrip(" ")) + ("\r\n" if self.st.crlf else "\n") + " "
             elif self.st.cont and self.rng.random() < self.st.cont and op != "sub":
                 mid = mid + "\\\n "
-            s = left + mid + self.comment() + right
+            cm = self.comment()
+            if cm and not mid.endswith((" ", "\n")):
+                cm = " " + cm        # `*` or `/` directly before a comment would open/close one
+            s = left + mid + cm + right
             if p < need or (self.st.parens and self.rng.random() < self.st.parens * 0.3):
                 return "(" + s + ")"
             return s
